@@ -144,10 +144,19 @@ extern "C" unsigned long vp_node_ctx(tbb::detail::r1::sleep_node<std::uintptr_t>
 #elif REALCPP == 2
 // boundary variant 2: the whole concurrent_monitor_base (wait set, epoch, predicate evaluation on node contexts, abort flags) and sleep_node are
 // real; only binary_semaphore::P/V and the bounded spin of concurrent_monitor_mutex::lock are cut. No type of concurrent_bounded_queue.cpp is named.
+// cbmc granularity: the two monitors live right behind the representation in ONE allocation; list-node pointers into that object make cbmc
+// rewrite the whole representation on every list update. The harness therefore moves the (still idle) monitors into an object of their own
+// right after construction; no queue logic depends on where they are (my_monitors is only ever indexed by the tag).
+extern "C" void vp_q_relocate_monitors(queue_t* q, tbb::detail::r1::concurrent_monitor* m) {
+  new (m) tbb::detail::r1::concurrent_monitor(); new (m + 1) tbb::detail::r1::concurrent_monitor(); q->my_monitors = m;
+}
 extern "C" unsigned long vp_mon_waiters(queue_t* q, int i) { return q->my_monitors[i].my_waitset.size(); }
 extern "C" int vp_mon_closed(queue_t* q, int i) { auto& w = q->my_monitors[i].my_waitset; return w.head.next == &w.head && w.head.prev == &w.head; }
 extern "C" int vp_mon_mutex_free(queue_t* q, int i) { return q->my_monitors[i].my_mutex.my_flag.load(std::memory_order_relaxed) == 0 && q->my_monitors[i].my_mutex.my_waiters.load(std::memory_order_relaxed) == 0; }
 extern "C" int vp_cmm_is_free(tbb::detail::r1::concurrent_monitor_mutex* mx) { return mx->my_flag.load(std::memory_order_relaxed) == 0; }
+// the semaphore word (0 open = a V is pending, 1 closed; set to 1 by the real constructor), used by the P/V contract stubs
+extern "C" int vp_sem_get(tbb::detail::r1::binary_semaphore* s) { return s->my_sem.load(std::memory_order_relaxed); }
+extern "C" void vp_sem_set(tbb::detail::r1::binary_semaphore* s, int v) { s->my_sem.store(v, std::memory_order_relaxed); }
 #endif
 #endif
 extern "C" void vp_q_push(queue_t* q, unsigned val) { elem_t e; e.v = val; q->push(e); }
